@@ -112,6 +112,51 @@ def ms6(F, R):
     R.floor("MS6", "graphs constructed from the ids of another graph", n, 1)
 
 
+MS7_IDS = {"add": (2,), "bind": (2, 3), "put": (2,), "data": (2,)}
+MS7_LOOKUPS = ("get", "get_mut", "index", "index_mut")
+
+
+def ms7(F, R):
+    """check before change: in each of the four mutators, every id parameter is looked up in the vertex table (the lookup is what
+    stops an id at or above the capacity, with a panic, in a debug-assertion build) on every path *before* the first change of the
+    graph.  A mutator that changes the graph first and is stopped afterwards leaves the change behind: the next call, although within
+    the limits, meets a graph no call sequence within the limits can build (an edge to an id beyond the capacity) and does not
+    complete."""
+    import gc_rules as G
+    c = G.context(F)
+    n = 0
+    for m, ids in MS7_IDS.items():
+        b = c.mut.get(m)
+        if b is None:
+            R.missing("MS7", "Sodg::" + m)
+            continue
+        R.analysed(b)
+        look = {k: [] for k in ids}
+        for e in c.raw[m]:
+            if e.kind == "call" and e.krate == "emap" and e.name in MS7_LOOKUPS and len(e.args) >= 2:
+                a0, a1 = strip_load(e.args[0]), strip_load(e.args[1])
+                if a0[0] == "field" and a0[2] == "Sodg::vertices" and strip_load(a0[1]) == ("param", 1) and a1[0] == "param" and a1[1] in look:
+                    look[a1[1]].append(e)
+        for k in ids:
+            if not look[k]:
+                R.bad("MS7", "MS7/Sodg::%s/id-parameter-%d-never-looked-up" % (m, k - 1), b.where(),
+                      "%s() never looks its id parameter #%d up in the vertex table: an id at or above the capacity is not stopped" % (m, k - 1))
+        for w in c.ev[m]:
+            for k in ids:
+                if not look[k]:
+                    continue
+                n += 1
+                if any(ev_dominates(l, w) for l in look[k]):
+                    continue
+                R.bad("MS7", "MS7/Sodg::%s/change-before-lookup-of-parameter-%d/%s" % (m, k - 1, w.kind), w.where(),
+                      "%s() changes the graph (%s) on a path on which its id parameter #%d has not yet been looked up in the vertex table: "
+                      "if that id is at or above the capacity the call is stopped only afterwards and the change stays — later calls "
+                      "within the limits then fail on a graph no legal sequence can build" % (m, w.kind, k - 1),
+                      {"lookups": [l.where() for l in look[k]]})
+    R.floor("MS7", "(change, id parameter) pairs of the mutators examined", n, 20)
+    R.ok("MS7", "(ops)", "every change of the graph in add/bind/put/data is dominated by the table lookup of each id parameter (%d pairs)" % n)
+
+
 def ms5(F, R):
     sodg = F.adts.get("Sodg")
     if sodg is None:
